@@ -110,6 +110,13 @@ public:
      */
     unsigned int checkBuffer(const FileWithDetails &file, const char* data, std::size_t size);
 
+#ifdef DANMAR_CPPCHECK_VERIF
+    /** verification hook: the internal suppression-aware logger every finding goes through */
+    ErrorLogger& verifLogger();
+    /** verification hook: exit code state of the internal logger */
+    unsigned int verifExitCode() const;
+#endif
+
     /**
      * @brief Returns current version number as a string.
      * @return version, e.g. "1.38"
